@@ -15,6 +15,7 @@ from ..core import (
     data_deps,
     derives_from_local,
     place_fields,
+    self_fields_read,
     switch_sites,
 )
 from ..flow import conditions, consumers, switch_subject
@@ -780,3 +781,89 @@ def _same_source(prog, fn, tree, b, ext_op):
     for e in prov(prog, b, ext_op):
         bset |= calls(e)
     return bool(a & bset)
+
+
+def rule_encoder_assumptions_reach_sat_calls(ctx):
+    """C08: the incremental encoders switch constraints on and off through assumptions; a SAT call that does not carry them answers for
+    another framework"""
+    prog = ctx.prog
+    r = ctx.rule(
+        "encoder-assumptions-reach-every-sat-call",
+        "every SAT call a dynamic solver's query makes carries the current assumptions of its incremental encoder (`encoder.assumptions()`): "
+        "directly in the assumption vector, or - for a search run by a MaximalExtensionComputer - handed to the computer with "
+        "`set_additional_assumptions` before its first step, and appended by the computer to the assumptions of each of its SAT calls",
+    )
+    MEC = "solvers::maximal_extension_computer::MaximalExtensionComputer"
+    n = 0
+    for imp in dyn_impls(prog):
+        sadt = imp.get("self_adt")
+        for tr in ("solvers::specs::CredulousAcceptanceComputer", "solvers::specs::SkepticalAcceptanceComputer"):
+            for i2 in prog.impls_of_trait(tr):
+                if i2.get("self_adt") != sadt:
+                    continue
+                for m in i2["methods"]:
+                    qb0 = prog.lib(m["path"])
+                    if qb0 is None:
+                        continue
+                    group = [qb0] + [x for x in prog.reachable_from([qb0], virtual_dispatch=False).values() if x is not qb0 and x.kind != "closure" and x.impl and x.impl.get("self_adt") == sadt and not x.impl.get("trait")]
+                    for qb in group:
+                        uses_enc = any(re.search(r"::assumptions$", strip_generics(callee_name(callee_of(s)) or "")) for y in prog.with_closures(qb) for s in y.calls())
+                        for s in qb.calls():
+                            if callee_matches(callee_of(s), r"SatSolver::solve_under_assumptions$"):
+                                n += 1
+                                _, calls, _ = data_deps(qb, s.node["args"][1])
+                                ok = any(re.search(r"::assumptions$", strip_generics(callee_name(callee_of(c)) or "")) for c in calls)
+                                r.check(ok, "%s|solve" % qb.id, "encoder-assumptions-missing", "the SAT call assumes encoder.assumptions()", "a SAT call of the query does not carry the encoder's current assumptions: constraints of removed arguments / attacks stay switched on (or those of present ones off)", s.loc())
+                            elif callee_matches(callee_of(s), r"SatSolver::solve$"):
+                                n += 1
+                                r.violation("%s|solve" % qb.id, "encoder-assumptions-missing", "a dynamic solver's query calls solve() without assumptions: the incremental encoder's switches are ignored", s.loc())
+                        # searches run by a computer
+                        news = [s for s in qb.calls() if callee_matches(callee_of(s), r"maximal_extension_computer::new_for_\w+$|MaximalExtensionComputer::new$")]
+                        if news:
+                            n += 1
+                            sets = [s for s in qb.calls() if callee_matches(callee_of(s), r"MaximalExtensionComputer::set_additional_assumptions$")]
+                            steps = [s for s in qb.calls() if callee_matches(callee_of(s), r"MaximalExtensionComputer::(compute_next|compute_maximal)$")]
+                            ok = False
+                            for st in sets:
+                                _, calls, _ = data_deps(qb, st.node["args"][1])
+                                if any(re.search(r"::assumptions$", strip_generics(callee_name(callee_of(c)) or "")) for c in calls) and all(qb.dominates(st, x) for x in steps):
+                                    ok = True
+                            r.check(ok, "%s|computer" % qb.id, "computer-without-encoder-assumptions", "the computer receives encoder.assumptions() before its first step", "the maximal-extension computer run by the query is not given the encoder's current assumptions before its first step", news[0].loc())
+    r.floor(n, 5, "SAT calls / computers in the queries of the dynamic solvers")
+    # the computer appends what it was given to every SAT call it makes
+    setter = [b for b in prog.lib_bodies() if b.kind != "closure" and b.impl and b.impl.get("self_adt") == MEC and b.path.endswith("::set_additional_assumptions")]
+    if r.require_anchor(setter, MEC + "::set_additional_assumptions"):
+        fields = set()
+        for s in setter[0].sites():
+            nd = s.node
+            if s.si is not None and nd["k"] == "assign" and nd["dst"]["l"] == 1 and place_fields(nd["dst"]):
+                fields.add(str(place_fields(nd["dst"])[0]))
+        k = 0
+        for b in prog.lib_bodies():
+            if b.kind == "closure" or not b.impl or b.impl.get("self_adt") != MEC:
+                continue
+            for s in b.calls():
+                if callee_matches(callee_of(s), r"SatSolver::solve(_under_assumptions)?$"):
+                    k += 1
+                    got = set()
+                    if len(s.node["args"]) > 1:
+                        # elements, not just a capacity: an append / extend / chain onto the assumption vector whose source reads the field
+                        _T = ("core::ops::deref::Deref::deref", "core::ops::deref::DerefMut::deref_mut", "alloc::vec::Vec::as_slice", "core::convert::AsRef::as_ref", "core::borrow::Borrow::borrow")
+
+                        def _creation(op):
+                            return {(o.site.bb, o.site.si) for o in origins(b, op, transparent=_T) if o.kind == "call" and o.site is not None}
+
+                        vroots = _creation(s.node["args"][1])
+                        for c2 in b.calls():
+                            d2 = callee_decl(callee_of(c2))
+                            if d2 in ("alloc::vec::Vec::append", "core::iter::traits::collect::Extend::extend", "alloc::vec::Vec::extend_from_slice", "core::iter::traits::iterator::Iterator::chain", "alloc::slice::concat", "alloc::slice::<impl [T]>::concat") and len(c2.node["args"]) >= 2:
+                                r0 = _creation(c2.node["args"][0])
+                                if (r0 & vroots) or d2.endswith("chain") or d2.endswith("concat"):
+                                    from ..prov import prov as _prov, leaves as _leaves
+
+                                    srcs = [c2.node["args"][1]] + ([c2.node["args"][0]] if d2.endswith("chain") or d2.endswith("concat") else [])
+                                    for so in srcs:
+                                        for e in _prov(prog, b, so):
+                                            got |= {l[3][0] for l in _leaves(e) if l[0] == "param" and l[2] == 1 and l[3]}
+                    r.check(bool(fields) and fields <= got, "%s|sat-call" % b.id, "additional-assumptions-dropped", "the computer's SAT call carries the additional assumptions (%s)" % sorted(fields), "a SAT call of the maximal-extension computer does not carry the additional assumptions it was given: a search on a dynamic solver's shared SAT solver ignores the encoder's switches", s.loc())
+        r.floor(k, 1, "SAT calls of the maximal-extension computer")
